@@ -6,6 +6,9 @@ from checks import proxylib
 
 def run(c):
     proxylib.decide(c, "C03", relevant=lambda row: row['attributed'] and (row['dest'] in ('ws','ga') and not row['elevated'] or row['dest']=='self'))
+    # a direct connection never becomes an elevated caller's connection because a record appears under its port number later
+    from checks import c07
+    c07.late_record(c, "C03")
 
 
 def replay(c, path):
